@@ -572,7 +572,7 @@ func main() {
 			}
 			w.Close()
 			if k != "" {
-				fmt.Printf("VIOLATION property=C14 replay=%s\n  %s: %s\n", os.Args[2], k, d)
+				fmt.Printf("VIOLATION property=%s replay=%s\n  %s: %s\n", ev.As("C14"), os.Args[2], k, d)
 				os.Exit(1)
 			}
 			fmt.Println("replay: property held")
